@@ -631,15 +631,16 @@ class Model():
             left_field_name, right_field_name = \
                 self.get_association_field_names(association)
 
-            if asset in getattr(association, left_field_name):
-                opposite_field_name = right_field_name
-            else:
-                opposite_field_name = left_field_name
-
-            if opposite_field_name == field_name:
-                associated_assets.extend(
-                    getattr(association, opposite_field_name)
-                )
+            # Both orientations are checked independently because in a
+            # reflexive association the asset can be on both sides.
+            for own_field_name, opposite_field_name in (
+                    (left_field_name, right_field_name),
+                    (right_field_name, left_field_name)):
+                if opposite_field_name == field_name and \
+                        asset in getattr(association, own_field_name):
+                    associated_assets.extend(
+                        getattr(association, opposite_field_name)
+                    )
 
         return associated_assets
 
